@@ -910,7 +910,9 @@ func c04CheckStream(what string, sig []byte, walked *tlc.Container, want []c04Ha
 	return si, c04Compare(what+" read back", gh, want)
 }
 
-func c04Groups(si *pwr.SignatureInfo, want []c04Hash) (string, string) {
+// c04Groups: oracle verdict on pwr.ComputeHashInfo, the groups as a Coq term, and whether the call
+// itself returned normally
+func c04Groups(si *pwr.SignatureInfo, want []c04Hash) (string, string, bool) {
 	var hi *pwr.HashInfo
 	cls, msg := lib.Guard(func() error {
 		var err error
@@ -918,7 +920,7 @@ func c04Groups(si *pwr.SignatureInfo, want []c04Hash) (string, string) {
 		return err
 	})
 	if cls != "ok" {
-		return "ComputeHashInfo " + cls + ": " + msg, ""
+		return "ComputeHashInfo " + cls + ": " + msg, "", false
 	}
 	byFile := map[int64][]c04Hash{}
 	for _, h := range want {
@@ -941,7 +943,7 @@ func c04Groups(si *pwr.SignatureInfo, want []c04Hash) (string, string) {
 		}
 		gh, bad := c04FromWsync(g)
 		if bad != "" {
-			return "ComputeHashInfo: " + bad, ""
+			return "ComputeHashInfo: " + bad, "", true
 		}
 		if d := c04Compare(fmt.Sprintf("ComputeHashInfo group of file %d", i), gh, byFile[int64(i)]); d != "" && oracle == "" {
 			oracle = d
@@ -956,7 +958,7 @@ func c04Groups(si *pwr.SignatureInfo, want []c04Hash) (string, string) {
 	if len(hi.Groups) > len(si.Container.Files) && oracle == "" {
 		oracle = "ComputeHashInfo: more groups than files"
 	}
-	return oracle, lib.CoqList(coq)
+	return oracle, lib.CoqList(coq), true
 }
 
 func c04Builds(c *Ctx) error {
@@ -1128,16 +1130,23 @@ func c04Builds(c *Ctx) error {
 		}
 
 		// hash groups and validation of an undamaged copy
+		var hashInfoOK [2]bool
 		for k, s := range []*pwr.SignatureInfo{si, si2} {
 			if s == nil {
 				continue
 			}
 			who := []string{"diff-time", "stand-alone"}[k]
-			d, gc := c04Groups(s, want)
+			d, gc, callOK := c04Groups(s, want)
 			if d != "" {
 				fail(who + " signature: " + d)
 			}
-			if k == 0 {
+			hashInfoOK[k] = callOK
+			if !callOK {
+				// Validate would call ComputeHashInfo on the same input from a goroutine of its own,
+				// where a panic cannot be intercepted: the failure is reported, validation skipped
+				continue
+			}
+			if k == 0 && d == "" {
 				groupsCoq = gc
 			}
 			cls, msg = lib.WithDeadline(120*time.Second, func() error { return pwr.AssertValid(copyDir, s) })
@@ -1150,7 +1159,7 @@ func c04Builds(c *Ctx) error {
 			}
 			obs["assertValid-"+who] = cls
 		}
-		if si != nil {
+		if si != nil && hashInfoOK[0] {
 			wp := filepath.Join(base, "wounds.pww")
 			vctx := &pwr.ValidatorContext{WoundsPath: wp, Consumer: lib.Quiet}
 			cls, msg = lib.WithDeadline(120*time.Second, func() error { return vctx.Validate(context.Background(), copyDir, si) })
